@@ -20,7 +20,7 @@ import (
 // "progress once faults stop" clause.
 
 var c13Entry = []string{"addfact", "addrule", "search", "event", "query", "evaluate", "searchrules", "addrulefact"}
-var c13Keys = []string{"rule", "when", "pattern", "condition", "action", "actions", "schedule", "expires", "ttl", "deleteWith", "id", "!p", "trigger!", "evaluate!", "_id", "locations", "code", "endpoint", "opts", "policies", "once", "and", "or", "not", "libraries"}
+var c13Keys = []string{"", "rule", "when", "pattern", "condition", "action", "actions", "schedule", "expires", "ttl", "deleteWith", "id", "!p", "trigger!", "evaluate!", "_id", "locations", "code", "endpoint", "opts", "policies", "once", "and", "or", "not", "libraries"}
 
 func c13Values() []interface{} {
 	return []interface{}{
@@ -248,6 +248,11 @@ func execC13(t *testing.T, plan *h.Plan, trace bool) *h.Result {
 		// hostile events that carry "a" reach it with whatever they put there
 		if _, err := loc.AddRule(ctx(), "canaryrule2", core.Map{"when": map[string]interface{}{"pattern": map[string]interface{}{"a": "?x"}},
 			"condition": map[string]interface{}{"pattern": map[string]interface{}{"canary": "?x"}}, "action": map[string]interface{}{"code": "'canary2-fired'"}}); err != nil {
+			panic(err)
+		}
+		// a third bystander whose `when` has a map where the base inputs have one
+		if _, err := loc.AddRule(ctx(), "canaryrule3", core.Map{"when": map[string]interface{}{"pattern": map[string]interface{}{"deep": map[string]interface{}{"b": []interface{}{"?e"}}}},
+			"action": map[string]interface{}{"code": "'canary3-fired'"}}); err != nil {
 			panic(err)
 		}
 		// (the base rules' condition asks for a fact with "b": make it hold, so that their actions run)
